@@ -35,6 +35,7 @@ inductive Cond
   | isFalse (i : Nat)        -- `x === false`
   | defined (i : Nat)        -- `x !== undefined`
   | nonEmpty (i : Nat)       -- `x?.length`, `x && x.length > 0`
+  | isLit (i : Nat) (s : Str)  -- `x === 'lit'`
   | not (c : Cond)
   | and (a b : Cond)
   | or (a b : Cond)
@@ -47,11 +48,13 @@ inductive Tok
   | spread (i : Nat)                 -- `...x`
   | elem                             -- loop variable of `for (const p of x)`
   | orLit (i : Nat) (s : Str)      -- `x || 'lit'`
+  | attach (name : Str) (t : Tok)  -- `\`--name=${t}\``: one token, option and value joined by `=`
   deriving DecidableEq, Repr
 
 inductive Step
   | push (c : Cond) (toks : List Tok)
   | each (c : Cond) (i : Nat) (toks : List Tok)
+  | eachNorm (c : Cond) (i : Nat) (toks : List Tok)   -- `for (const p of x.flatMap(helper))`
   deriving DecidableEq, Repr
 
 structure Builder where
@@ -60,6 +63,9 @@ structure Builder where
   sub : Str
   fields : List Field
   steps : List Step
+  /-- the pure helper of `eachNorm` loops, tabulated by executing the real function on every
+      representative element (`translate/wrappers.py: norm_table`): element ↦ what it returns -/
+  norm : List (Str × List Str) := []
   deriving DecidableEq, Repr
 
 abbrev Valuation := List Value
@@ -86,6 +92,7 @@ def evalCond (v : Valuation) : Cond → Bool
   | .isFalse i => (match getV v i with | .bool false => true | _ => false)
   | .defined i => (match getV v i with | .undef => false | _ => true)
   | .nonEmpty i => hasLength (getV v i)
+  | .isLit i s => (match getV v i with | .str x => seq x s | _ => false)
   | .not c => !evalCond v c
   | .and a b => evalCond v a && evalCond v b
   | .or a b => evalCond v a || evalCond v b
@@ -96,6 +103,7 @@ inductive ITok
   | value (s : Str)
   | values (vs : List Str)
   | joined (vs : List Str) (sep : Nat)
+  | attached (name : Str) (vs : List Str) (text : Str)   -- `--name=text`, meaning option `name` = `vs`
   deriving DecidableEq, Repr
 
 def bUndefined : Str := [117, 110, 100, 101, 102, 105, 110, 101, 100]
@@ -117,7 +125,19 @@ def listOf : Value → List Str
   | .list l => l
   | _ => []
 
+def joinWith' (sep : Str) : List Str → Str
+  | [] => []
+  | [w] => w
+  | w :: ws => w ++ sep ++ joinWith' sep ws
+
 def evalTok (v : Valuation) (e : Str) : Tok → ITok
+  | .attach name t =>
+    match evalTok v e t with
+    | .lit s => .attached name [s] s
+    | .value s => .attached name [s] s
+    | .joined vs sep => .attached name vs (joinWith' [sep] vs)
+    | .values vs => .attached name vs (joinWith' [44] vs)
+    | .attached _ vs text => .attached name vs text
   | .lit s => .lit s
   | .val i => .value (strOf (getV v i))
   | .joined i sep => .joined (listOf (getV v i)) sep
@@ -125,18 +145,27 @@ def evalTok (v : Valuation) (e : Str) : Tok → ITok
   | .elem => .value e
   | .orLit i s => .value (if truthy (getV v i) then strOf (getV v i) else s)
 
+/-- what the tabulated helper returns for one element (an element outside the table passes unchanged) -/
+def normOf (tab : List (Str × List Str)) (e : Str) : List Str :=
+  match tab.find? (fun kv => seq kv.1 e) with
+  | some kv => kv.2
+  | none => [e]
+
 /-- the groups of tokens pushed, one group per executed `args.push(..)` -/
-def evalStep (v : Valuation) : Step → List (List ITok)
+def evalStep (tab : List (Str × List Str)) (v : Valuation) : Step → List (List ITok)
   | .push c toks => if evalCond v c then [toks.map (evalTok v [])] else []
   | .each c i toks => if evalCond v c then (listOf (getV v i)).map (fun e => toks.map (evalTok v e)) else []
+  | .eachNorm c i toks =>
+    if evalCond v c then ((listOf (getV v i)).flatMap (normOf tab)).map (fun e => toks.map (evalTok v e)) else []
 
-def groups (b : Builder) (v : Valuation) : List (List ITok) := b.steps.flatMap (evalStep v)
+def groups (b : Builder) (v : Valuation) : List (List ITok) := b.steps.flatMap (evalStep b.norm v)
 
 def render : ITok → List Str
   | .lit s => [s]
   | .value s => [s]
   | .values vs => vs
   | .joined vs sep => [joinWith [sep] vs]
+  | .attached name _ text => [45 :: 45 :: (name ++ 61 :: text)]
 
 /-- the argument vector (without the program name) -/
 def build (b : Builder) (v : Valuation) : List Str := ((groups b v).flatMap id).flatMap render
@@ -188,14 +217,28 @@ inductive Expect
   | opt (name : Str) (vs : List Str)  -- option `--name` holds exactly `vs` over all its occurrences
   deriving DecidableEq, Repr
 
+/-- after a literal `--` every token is a positional -/
+def walkTrailing : Nat → List ITok → List Expect × Nat
+  | k, [] => ([], k)
+  | k, .lit s :: rest => let r := walkTrailing (k + 1) rest; (.pos k [s] :: r.1, r.2)
+  | k, .value x :: rest => let r := walkTrailing (k + 1) rest; (.pos k [x] :: r.1, r.2)
+  | k, .values vs :: rest => let r := walkTrailing (k + 1) rest; (.pos k vs :: r.1, r.2)
+  | k, .joined vs _ :: rest => let r := walkTrailing (k + 1) rest; (.pos k vs :: r.1, r.2)
+  | k, .attached name _ text :: rest =>
+    let r := walkTrailing (k + 1) rest; (.pos k [45 :: 45 :: (name ++ 61 :: text)] :: r.1, r.2)
+
 /-- reading of one `args.push(..)` group; `k` = positionals seen so far, `pend` = a `--name` literal
-    whose role (flag, or option with the next token as value) is not decided yet -/
-def walk : Nat → Option Str → List ITok → List Expect × Nat
-  | k, none, [] => ([], k)
-  | k, some name, [] => ([.flag name], k)
+    whose role (flag, or option with the next token as value) is not decided yet.  The third component
+    tells whether a literal `--` was met (then the rest, and all later groups, are positionals). -/
+def walk : Nat → Option Str → List ITok → List Expect × Nat × Bool
+  | k, none, [] => ([], k, false)
+  | k, some name, [] => ([.flag name], k, false)
+  | k, none, .lit [45, 45] :: rest => let r := walkTrailing k rest; (r.1, r.2, true)
+  | k, some name, .lit [45, 45] :: rest => let r := walkTrailing k rest; (.flag name :: r.1, r.2, true)
   | k, some name, .value x :: rest => let r := walk k none rest; (.opt name [x] :: r.1, r.2)
   | k, some name, .joined vs _ :: rest => let r := walk k none rest; (.opt name vs :: r.1, r.2)
   | k, some name, .values vs :: rest => let r := walk (k + 1) none rest; (.flag name :: .pos k vs :: r.1, r.2)
+  | k, some name, .attached n2 vs _ :: rest => let r := walk k none rest; (.flag name :: .opt n2 vs :: r.1, r.2)
   | k, some name, .lit (45 :: 45 :: n2) :: rest => let r := walk k (some n2) rest; (.flag name :: r.1, r.2)
   | k, some name, .lit [45, c] :: rest => let r := walk k none rest; (.flag name :: .short c :: r.1, r.2)
   | k, some name, .lit y :: rest => let r := walk k none rest; (.opt name [y] :: r.1, r.2)
@@ -205,10 +248,13 @@ def walk : Nat → Option Str → List ITok → List Expect × Nat
   | k, none, .value x :: rest => let r := walk (k + 1) none rest; (.pos k [x] :: r.1, r.2)
   | k, none, .values vs :: rest => let r := walk (k + 1) none rest; (.pos k vs :: r.1, r.2)
   | k, none, .joined vs _ :: rest => let r := walk (k + 1) none rest; (.pos k vs :: r.1, r.2)
+  | k, none, .attached name vs _ :: rest => let r := walk k none rest; (.opt name vs :: r.1, r.2)
 
-def walkGroups : Nat → List (List ITok) → List Expect
-  | _, [] => []
-  | k, g :: gs => let r := walk k none g; r.1 ++ walkGroups r.2 gs
+/-- all groups in order; once `--` was pushed every later token is a positional -/
+def walkGroups : Nat → Bool → List (List ITok) → List Expect
+  | _, _, [] => []
+  | k, true, g :: gs => let r := walkTrailing k g; r.1 ++ walkGroups r.2 true gs
+  | k, false, g :: gs => let r := walk k none g; r.1 ++ walkGroups r.2.1 r.2.2 gs
 
 /-- concatenate the expectations about one option (`--include a --include b`) -/
 def addOpt (name : Str) (vs : List Str) : List Expect → List Expect
@@ -224,8 +270,8 @@ def mergeOpts : List Expect → List Expect → List Expect
 /-- the first pushed token is the subcommand; the rest is read group by group -/
 def intent (b : Builder) (v : Valuation) : List Expect :=
   match groups b v with
-  | (.lit s :: g) :: gs => .sub s :: mergeOpts [] (walkGroups 0 (g :: gs))
-  | gs => mergeOpts [] (walkGroups 0 gs)
+  | (.lit s :: g) :: gs => .sub s :: mergeOpts [] (walkGroups 0 false (g :: gs))
+  | gs => mergeOpts [] (walkGroups 0 false gs)
 
 def lookup (l : List (Str × Cli.Val)) (id : Str) : Option Cli.Val :=
   (l.find? (fun e => seq e.1 id)).map (·.2)
